@@ -28,7 +28,7 @@ Definition Own (st : state) (loc : nat -> option place) : Prop :=
      h_scr (t_h (s_thr st t) hi) < s_nscr st /\
      s_contents st (h_scr (t_h (s_thr st t) hi)) = h_gid (t_h (s_thr st t) hi)).
 
-Definition Inv (st : state) : Prop := exists loc, Own st loc.
+Definition Inv (st : state) : Prop := s_dput st = false /\ exists loc, Own st loc.
 
 Lemma remove_nth_In i : forall l x, In x (remove_nth i l) -> In x l.
 Proof.
@@ -103,14 +103,28 @@ Ltac frame_pc HO :=
           | rewrite live_ret in Hlx; [exact Hlx|congruence] ]
   | simpl; intros; congruence ].
 
+Lemma step_dput t ch st st' : s_dput st = false -> step t ch st = Some st' -> s_dput st' = false.
+Proof.
+  intros Hd H. unfold step in H.
+  destruct (t_pc (s_thr st t)); [destruct (t_prog (s_thr st t)) as [|[]]| | | | | |];
+    repeat match type of H with
+           | None = Some _ => discriminate
+           | Some _ = Some _ => injection H as <-; simpl; assumption
+           | context [match ?x with _ => _ end] => destruct x
+           end.
+Qed.
+
 Lemma step_inv t ch st st' : Inv st -> step t ch st = Some st' -> Inv st'.
 Proof.
-  intros (loc & HO). pose proof HO as (O1 & O2 & O3 & O4).
+  intros (Hdp & loc & HO) Hstep. split; [revert Hstep; apply step_dput; assumption|]. revert Hstep.
+  pose proof HO as (O1 & O2 & O3 & O4).
   unfold step. set (th := s_thr st t) in *.
   destruct (t_pc th) eqn:Hpc.
   - (* Idle: next call *)
-    destruct (t_prog th) as [|[seed|hi|hi|x] prog] eqn:Hprog; [discriminate| | | |].
+    destruct (t_prog th) as [|[seed|seed site|hi|hi|x] prog] eqn:Hprog; [discriminate| | | | |].
     + (* Garble: Load *)
+      destruct (s_ptr st) as [p|]; intros [= <-]; frame_pc HO.
+    + (* failing Garble: Load *)
       destruct (s_ptr st) as [p|]; intros [= <-]; frame_pc HO.
     + (* Release *)
       destruct (h_pool (t_h th hi)) as [p|] eqn:Hp.
@@ -201,31 +215,64 @@ Proof.
            rewrite !upd_other by (unfold s; lia). split; [assumption|]. split; [lia|assumption].
         -- rewrite (upd_other _ t t') by assumption. intros H. destruct (O4 t' hi' H) as (A & B & C).
            rewrite !upd_other by (unfold s; lia). split; [assumption|]. split; [lia|assumption].
-  - (* fill the scratch, return the handle *)
-    intros [= <-]. destruct (O3 t seed p s Hpc) as (Ls & Bs).
+  - (* fill the scratch: return the handle, or fail and put the scratch back *)
+    destruct (O3 t seed p s Hpc) as (Ls & Bs).
+    assert (Succ : exists loc', Own (mkState (s_ptr st) (s_npools st) (s_pool st) (upd (s_contents st) s seed) (s_nscr st)
+                     (upd (s_thr st) t (mkThread (tl (t_prog th)) Idle (S (t_nh th))
+                        (upd (t_h th) (t_nh th) (mkHandle s (Some p) seed)) (RGarble seed :: t_res th))) (s_dput st)) loc').
+    {
     exists (upd loc s (Some (Live t (t_nh th)))). unfold Own. simpl. split; [|split; [|split]].
-    + apply O1.
-    + intros p' s' Hin'. destruct (O2 p' s' Hin') as (A & B). split; [|assumption].
-      rewrite upd_other; [assumption|]. intros ->. congruence.
+      + apply O1.
+      + intros p' s' Hin'. destruct (O2 p' s' Hin') as (A & B). split; [|assumption].
+        rewrite upd_other; [assumption|]. intros ->. congruence.
+      + intros t' seed' p' s'. destruct (Nat.eq_dec t' t) as [->|Hne].
+        * rewrite upd_same. simpl. discriminate.
+        * rewrite (upd_other _ t t') by assumption. intros H. destruct (O3 t' seed' p' s' H) as (A & B).
+          split; [|assumption]. rewrite upd_other; [assumption|]. intros ->. congruence.
+      + intros t' hi'. destruct (Nat.eq_dec t' t) as [->|Hne].
+        * rewrite upd_same. unfold live. simpl. intros H.
+          apply andb_true_iff in H. destruct H as (H & _). apply andb_true_iff in H. destruct H as (H1 & H2).
+          apply Nat.ltb_lt in H1. destruct (Nat.eq_dec hi' (t_nh th)) as [->|Eh].
+          -- rewrite !upd_same. cbn [h_scr h_gid h_pool]. rewrite ?upd_same. auto.
+          -- rewrite (upd_other (t_h th)) in H2 by assumption.
+             rewrite !(upd_other (t_h th) (t_nh th) hi') by assumption.
+             assert (Hl' : live th hi' = true).
+             { unfold live. rewrite Hpc. rewrite andb_true_r. apply andb_true_iff. split; [apply Nat.ltb_lt; lia|exact H2]. }
+             destruct (O4 t hi' Hl') as (A & B & C). fold th in A, B, C.
+             assert (h_scr (t_h th hi') <> s) by (intros E; rewrite E in A; congruence).
+             rewrite !upd_other by assumption. auto.
+        * rewrite (upd_other _ t t') by assumption. intros H. destruct (O4 t' hi' H) as (A & B & C).
+          assert (h_scr (t_h (s_thr st t') hi') <> s) by (intros E; rewrite E in A; congruence).
+          rewrite !upd_other by assumption. auto.
+    }
+    destruct (t_prog th) as [|[seed0|seed0 site|hi0|hi0|x0] prog0] eqn:Hprog; try (intros [= <-]; exact Succ).
+    (* the failing Garble *)
+    rewrite Hdp. simpl andb. cbv iota. intros [= <-].
+    assert (Hnin : forall p', ~ In s (s_pool st p')).
+    { intros p' Hin. destruct (O2 p' s Hin) as (A & _). congruence. }
+    assert (Cont : forall (b : bool) x, x <> s -> (if b then upd (s_contents st) s seed else s_contents st) x = s_contents st x).
+    { intros b x Hx. destruct b; [now rewrite upd_other|reflexivity]. }
+    exists (upd loc s (Some (InPool p))). unfold Own. simpl. split; [|split; [|split]].
+    + intros p'. unfold upd at 1. destruct (p' =? p) eqn:Ep; [|apply O1].
+      apply Nat.eqb_eq in Ep. subst p'. apply NoDup_snoc; [apply O1|apply Hnin].
+    + intros p' s'. unfold upd at 1. destruct (p' =? p) eqn:Ep.
+      * apply Nat.eqb_eq in Ep. subst p'. intros Hin. apply in_app_or in Hin. destruct Hin as [Hin|[<-|[]]].
+        -- destruct (O2 p s' Hin) as (A & B). split; [|assumption]. rewrite upd_other; [assumption|]. intros ->. now apply (Hnin p).
+        -- rewrite upd_same. auto.
+      * intros Hin. destruct (O2 p' s' Hin) as (A & B). split; [|assumption].
+        rewrite upd_other; [assumption|]. intros ->. now apply (Hnin p').
     + intros t' seed' p' s'. destruct (Nat.eq_dec t' t) as [->|Hne].
       * rewrite upd_same. simpl. discriminate.
       * rewrite (upd_other _ t t') by assumption. intros H. destruct (O3 t' seed' p' s' H) as (A & B).
         split; [|assumption]. rewrite upd_other; [assumption|]. intros ->. congruence.
     + intros t' hi'. destruct (Nat.eq_dec t' t) as [->|Hne].
-      * rewrite upd_same. unfold live. simpl. intros H.
-        apply andb_true_iff in H. destruct H as (H & _). apply andb_true_iff in H. destruct H as (H1 & H2).
-        apply Nat.ltb_lt in H1. destruct (Nat.eq_dec hi' (t_nh th)) as [->|Eh].
-        -- rewrite !upd_same. cbn [h_scr h_gid h_pool]. rewrite ?upd_same. auto.
-        -- rewrite (upd_other (t_h th)) in H2 by assumption.
-           rewrite !(upd_other (t_h th) (t_nh th) hi') by assumption.
-           assert (Hl' : live th hi' = true).
-           { unfold live. rewrite Hpc. rewrite andb_true_r. apply andb_true_iff. split; [apply Nat.ltb_lt; lia|exact H2]. }
-           destruct (O4 t hi' Hl') as (A & B & C). fold th in A, B, C.
-           assert (h_scr (t_h th hi') <> s) by (intros E; rewrite E in A; congruence).
-           rewrite !upd_other by assumption. auto.
+      * rewrite upd_same. intros H. rewrite live_ret in H by (fold th; congruence).
+        destruct (O4 t hi' H) as (A & B & C). fold th in A, B, C. unfold th_ret. cbn [t_h].
+        assert (Hs : h_scr (t_h th hi') <> s) by (intros E; rewrite E in A; congruence).
+        rewrite upd_other by assumption. rewrite Cont by assumption. auto.
       * rewrite (upd_other _ t t') by assumption. intros H. destruct (O4 t' hi' H) as (A & B & C).
-        assert (h_scr (t_h (s_thr st t') hi') <> s) by (intros E; rewrite E in A; congruence).
-        rewrite !upd_other by assumption. auto.
+        assert (Hs : h_scr (t_h (s_thr st t') hi') <> s) by (intros E; rewrite E in A; congruence).
+        rewrite upd_other by assumption. rewrite Cont by assumption. auto.
   - (* Release: clear the fields *)
     intros [= <-]. eexists. eapply own_frame; [exact HO|reflexivity|reflexivity|reflexivity|reflexivity| |].
     + intros hi' H. unfold live in H. simpl in H.
@@ -244,7 +291,7 @@ Proof.
   intros HI. destruct it as [t ch|p i]; simpl.
   - destruct (step t ch st) eqn:Hs; [eapply step_inv; eauto|exact HI].
   - (* sync.Pool drops an element *)
-    destruct HI as (loc & O1 & O2 & O3 & O4). exists loc. unfold Own. simpl. split; [|split; [|split]]; auto.
+    destruct HI as (Hd & loc & O1 & O2 & O3 & O4). split; [exact Hd|]. exists loc. unfold Own. simpl. split; [|split; [|split]]; auto.
     + intros p'. unfold upd. destruct (p' =? p); [apply remove_nth_NoDup|]; apply O1.
     + intros p' s. unfold upd. destruct (p' =? p) eqn:Ep; [|apply O2].
       apply Nat.eqb_eq in Ep. subst p'. intros H. apply remove_nth_In in H. now apply O2.
@@ -252,7 +299,7 @@ Qed.
 
 Lemma init_inv progs : Inv (init progs).
 Proof.
-  exists (fun _ => None). unfold Own, init. simpl. split; [intros; constructor|].
+  split; [reflexivity|]. exists (fun _ => None). unfold Own, init, init_cfg. simpl. split; [intros; constructor|].
   split; [intros p s []|]. split; [intros; discriminate|].
   intros t hi H. unfold live, init_thread in H. simpl in H. discriminate.
 Qed.
@@ -276,7 +323,7 @@ Lemma exclusive_handles t1 h1 t2 h2 :
   live (s_thr st t1) h1 = true -> live (s_thr st t2) h2 = true ->
   h_scr (t_h (s_thr st t1) h1) = h_scr (t_h (s_thr st t2) h2) -> t1 = t2 /\ h1 = h2.
 Proof.
-  destruct (run_inv sched _ (init_inv progs)) as (loc & _ & _ & _ & O4). fold st in O4.
+  destruct (run_inv sched _ (init_inv progs)) as (_ & loc & _ & _ & _ & O4). fold st in O4.
   intros L1 L2 E. destruct (O4 t1 h1 L1) as (A & _). destruct (O4 t2 h2 L2) as (B & _).
   rewrite E in A. rewrite A in B. injection B as -> ->. auto.
 Qed.
@@ -284,7 +331,7 @@ Qed.
 Lemma exclusive_pool t h p :
   live (s_thr st t) h = true -> ~ In (h_scr (t_h (s_thr st t) h)) (s_pool st p).
 Proof.
-  destruct (run_inv sched _ (init_inv progs)) as (loc & _ & O2 & _ & O4). fold st in O2, O4.
+  destruct (run_inv sched _ (init_inv progs)) as (_ & loc & _ & O2 & _ & O4). fold st in O2, O4.
   intros L Hin. destruct (O4 t h L) as (A & _). destruct (O2 _ _ Hin) as (B & _). congruence.
 Qed.
 
@@ -293,7 +340,7 @@ Lemma exclusive_held t h t' seed p s :
   h_scr (t_h (s_thr st t) h) <> s /\ (forall p', ~ In s (s_pool st p')) /\
   (forall t'' seed' p', t_pc (s_thr st t'') = GFill seed' p' s -> t'' = t').
 Proof.
-  destruct (run_inv sched _ (init_inv progs)) as (loc & _ & O2 & O3 & O4). fold st in O2, O3, O4.
+  destruct (run_inv sched _ (init_inv progs)) as (_ & loc & _ & O2 & O3 & O4). fold st in O2, O3, O4.
   intros L H. destruct (O4 t h L) as (A & _). destruct (O3 _ _ _ _ H) as (B & _). split; [|split].
   - intros E. rewrite E in A. congruence.
   - intros p' Hin. destruct (O2 _ _ Hin) as (C & _). congruence.
@@ -301,14 +348,14 @@ Proof.
 Qed.
 
 Lemma pool_nodup p : NoDup (s_pool st p).
-Proof. destruct (run_inv sched _ (init_inv progs)) as (loc & O1 & _). apply O1. Qed.
+Proof. destruct (run_inv sched _ (init_inv progs)) as (_ & loc & O1 & _). apply O1. Qed.
 
 (* C17_valid_until_release *)
 Lemma valid_until_release t h :
   live (s_thr st t) h = true ->
   s_contents st (h_scr (t_h (s_thr st t) h)) = h_gid (t_h (s_thr st t) h).
 Proof.
-  destruct (run_inv sched _ (init_inv progs)) as (loc & _ & _ & _ & O4). fold st in O4.
+  destruct (run_inv sched _ (init_inv progs)) as (_ & loc & _ & _ & _ & O4). fold st in O4.
   intros L. now destruct (O4 t h L) as (_ & _ & C).
 Qed.
 
@@ -391,12 +438,12 @@ Proof.
                end;
         try (intros Hh; eapply P3; eauto; fail);
         try (intros Hh; apply Stable; eapply P3; eauto; fail).
-      * (* GFill: the new handle carries the pool the goroutine looked up *)
-        unfold upd. destruct (hi =? t_nh (s_thr st t)); simpl.
-        -- intros [= <-]. eapply P2; eauto.
-        -- intros Hh. eapply P3; eauto.
-      * (* RClear *)
-        unfold upd. destruct (hi =? hi0); simpl; [discriminate|]. intros Hh. eapply P3; eauto.
+      (* GFill: the new handle carries the pool the goroutine looked up *)
+      all: try (unfold upd; destruct (hi =? t_nh (s_thr st t)); simpl;
+                [intros [= <-]; eapply P2; eauto|intros Hh; eapply P3; eauto]; fail).
+      (* RClear *)
+      unfold upd. match goal with |- context [hi =? ?x] => destruct (hi =? x) end; simpl; [discriminate|].
+      intros Hh. eapply P3; eauto.
     + rewrite Other by assumption. intros Hg. apply Stable. eapply P3; eauto.
 Qed.
 
@@ -450,7 +497,7 @@ Definition EvalInv (st : state) : Prop :=
 
 Lemma step_evalinv t ch st st' : Inv st -> EvalInv st -> step t ch st = Some st' -> EvalInv st'.
 Proof.
-  intros (loc & O1 & O2 & O3 & O4) HE H.
+  intros (_ & loc & O1 & O2 & O3 & O4) HE H.
   assert (Other : forall t', t' <> t -> s_thr st' t' = s_thr st t').
   { intros t' Hne. unfold step in H.
     destruct (t_pc (s_thr st t)); [destruct (t_prog (s_thr st t)) as [|[]]| | | | | |];
@@ -504,7 +551,156 @@ Proof.
   rewrite Hv, Nat.eqb_refl. reflexivity.
 Qed.
 
-(* run alone, an Eval of an unreleased handle returns that handle's garbling, too *)
-Lemma solo_eval hs hi seed rest :
-  nth_error hs hi = Some (seed, false) -> solo (OEval hi :: rest) hs = REval seed :: solo rest hs.
-Proof. intros H. simpl. now rewrite H. Qed.
+(* ------------------------------------------------------------------ *)
+(** * Linearizability: every goroutine's results are those of its program run alone *)
+
+Definition abs (th : thread) (hi : nat) : nat * bool :=
+  (h_gid (t_h th hi), match h_pool (t_h th hi) with None => true | Some _ => false end).
+
+Definition pc_ok (st : state) (th : thread) : Prop :=
+  match t_pc th with
+  | Idle => True
+  | GCas seed _ | GGet seed _ | GFill seed _ _ => exists r, t_prog th = OGarble seed :: r
+  | GLoad seed => (exists r, t_prog th = OGarble seed :: r) /\ s_ptr st <> None
+  | RClear hi => exists r, t_prog th = ORelease hi :: r /\ hi < t_nh th /\ h_pool (t_h th hi) <> None
+  | EEnd hi _ => exists r, t_prog th = OEval hi :: r
+  end.
+
+Definition lin_ok (prog0 : list op) (th : thread) : Prop :=
+  rev (t_res th) ++ solo (t_prog th) (t_nh th) (abs th) = solo_run prog0.
+
+Definition LinInv (progs : list (list op)) (st : state) : Prop :=
+  forall t, pc_ok st (s_thr st t) /\ lin_ok (nth t progs []) (s_thr st t).
+
+Lemma solo_ext prog : forall nh f g, (forall hi, f hi = g hi) -> solo prog nh f = solo prog nh g.
+Proof.
+  induction prog as [|[seed|hi|hi|x] r IH]; intros nh f g H; simpl; auto.
+  - f_equal. apply IH. intros hi. unfold upd. destruct (hi =? nh); auto.
+  - f_equal. rewrite (H hi). destruct ((hi <? nh) && negb (snd (g hi))); apply IH; auto.
+    intros hi'. unfold upd. destruct (hi' =? hi); auto.
+  - rewrite (H hi). f_equal. now apply IH.
+  - f_equal. now apply IH.
+Qed.
+
+Lemma lin_push prog0 res r rest nh f g :
+  rev res ++ r :: solo rest nh g = solo_run prog0 -> (forall hi, f hi = g hi) ->
+  rev (r :: res) ++ solo rest nh f = solo_run prog0.
+Proof.
+  intros H E. simpl. rewrite <- app_assoc. simpl. rewrite (solo_ext rest nh f g E). exact H.
+Qed.
+
+Lemma step_other t ch st st' t' : step t ch st = Some st' -> t' <> t -> s_thr st' t' = s_thr st t'.
+Proof.
+  intros H Hne. unfold step in H.
+  destruct (t_pc (s_thr st t)); [destruct (t_prog (s_thr st t)) as [|[]]| | | | | |];
+    repeat match type of H with
+           | None = Some _ => discriminate
+           | Some _ = Some _ => injection H as <-; simpl; now rewrite upd_other
+           | context [match ?x with _ => _ end] => destruct x
+           end.
+Qed.
+
+Lemma step_lininv progs t ch st st' :
+  Inv st -> EvalInv st -> LinInv progs st -> step t ch st = Some st' -> LinInv progs st'.
+Proof.
+  intros (_ & loc & O1 & O2 & O3 & O4) HE HL H t'.
+  destruct (Nat.eq_dec t' t) as [->|Hne].
+  2:{ rewrite (step_other _ _ _ _ _ H Hne). destruct (HL t') as (A & B). split; [|exact B].
+      unfold pc_ok in *. destruct (t_pc (s_thr st t')); auto. destruct A as (A1 & A2). split; [assumption|].
+      destruct (s_ptr st) as [p|] eqn:Hp; [|contradiction]. rewrite (step_ptr_stable _ _ _ _ _ H Hp). discriminate. }
+  destruct (HL t) as (PC & LIN). unfold pc_ok in PC. unfold lin_ok in LIN.
+  unfold step in H. set (th := s_thr st t) in *.
+  destruct (t_pc th) eqn:Hpc.
+  - (* Idle *)
+    destruct (t_prog th) as [|[seed|hi|hi|x] rest] eqn:Hprog; [discriminate| | | |].
+    + destruct (s_ptr st) as [p|]; injection H as <-; simpl; rewrite upd_same;
+        (split; [unfold pc_ok; simpl; eauto|unfold lin_ok; simpl; rewrite Hprog; exact LIN]).
+    + simpl in LIN. destruct (h_pool (t_h th hi)) as [p|] eqn:Hp.
+      * destruct (hi <? t_nh th) eqn:Hhi; injection H as <-; simpl; rewrite upd_same.
+        -- split.
+           ++ unfold pc_ok. simpl. exists rest. apply Nat.ltb_lt in Hhi. rewrite Hp. repeat split; auto. discriminate.
+           ++ unfold lin_ok. simpl. rewrite Hprog. simpl. rewrite Hhi, Hp. exact LIN.
+        -- split; [exact I|]. unfold lin_ok, th_ret. cbn [t_res t_prog t_nh t_h]. rewrite Hprog. cbn [tl].
+           eapply lin_push; [exact LIN|]. intros; reflexivity.
+      * injection H as <-. simpl. rewrite upd_same. split; [exact I|].
+        unfold lin_ok, th_ret. cbn [t_res t_prog t_nh t_h]. rewrite Hprog. cbn [tl].
+        simpl in LIN. rewrite andb_false_r in LIN. eapply lin_push; [exact LIN|]. intros; reflexivity.
+    + simpl in LIN. destruct (h_pool (t_h th hi)) as [p|] eqn:Hp.
+      * destruct (hi <? t_nh th) eqn:Hhi; injection H as <-; simpl; rewrite upd_same.
+        -- split; [unfold pc_ok; simpl; eauto|]. unfold lin_ok. simpl. rewrite Hprog. simpl. rewrite Hhi, Hp. exact LIN.
+        -- split; [exact I|]. unfold lin_ok, th_ret. cbn [t_res t_prog t_nh t_h]. rewrite Hprog. cbn [tl].
+           eapply lin_push; [exact LIN|]. intros; reflexivity.
+      * injection H as <-. simpl. rewrite upd_same. split; [exact I|].
+        unfold lin_ok, th_ret. cbn [t_res t_prog t_nh t_h]. rewrite Hprog. cbn [tl].
+        simpl in LIN. rewrite andb_false_r in LIN.
+        eapply lin_push; [exact LIN|]. intros; reflexivity.
+    + injection H as <-. simpl. rewrite upd_same. split; [exact I|].
+      unfold lin_ok, th_ret. cbn [t_res t_prog t_nh t_h]. rewrite Hprog. cbn [tl].
+      simpl in LIN. eapply lin_push; [exact LIN|]. intros; reflexivity.
+  - (* CAS *)
+    destruct PC as (r & Hprog).
+    destruct (s_ptr st) as [q|] eqn:Hptr; injection H as <-; simpl; rewrite upd_same.
+    + split; [|exact LIN]. unfold pc_ok. simpl. split; [eauto|]. rewrite Hptr. discriminate.
+    + split; [|exact LIN]. unfold pc_ok. simpl. eauto.
+  - (* Load *)
+    destruct PC as ((r & Hprog) & Hnn).
+    destruct (s_ptr st) as [q|] eqn:Hptr; [|contradiction]. injection H as <-. simpl. rewrite upd_same.
+    split; [|exact LIN]. unfold pc_ok. simpl. eauto.
+  - (* Get *)
+    destruct PC as (r & Hprog).
+    destruct (ch <? length (s_pool st p)); injection H as <-; simpl; rewrite upd_same;
+      (split; [unfold pc_ok; simpl; eauto|exact LIN]).
+  - (* Fill *)
+    destruct PC as (r & Hprog). injection H as <-. simpl. rewrite upd_same. split; [exact I|].
+    unfold lin_ok. cbn [t_res t_prog t_nh t_h]. rewrite Hprog in *. cbn [tl]. simpl in LIN.
+    eapply lin_push; [exact LIN|]. intros hi. unfold abs. cbn [t_h]. unfold upd.
+    destruct (hi =? t_nh th); reflexivity.
+  - (* Release: clear *)
+    destruct PC as (r & Hprog & Hhi & Hp). injection H as <-. simpl. rewrite upd_same. split; [exact I|].
+    unfold lin_ok. cbn [t_res t_prog t_nh t_h]. rewrite Hprog in *. cbn [tl]. simpl in LIN.
+    apply Nat.ltb_lt in Hhi. rewrite Hhi in LIN. unfold abs in LIN at 1.
+    destruct (h_pool (t_h th hi)) eqn:Hpool; [|contradiction]. simpl in LIN.
+    eapply lin_push; [exact LIN|]. intros hi'. unfold abs. cbn [t_h]. unfold upd.
+    destruct (hi' =? hi) eqn:Eh; [|reflexivity]. apply Nat.eqb_eq in Eh. subst hi'. reflexivity.
+  - (* Eval: last read *)
+    destruct PC as (r & Hprog). destruct (HE t hi v1 Hpc) as (Hl & Hv). fold th in Hl, Hv.
+    destruct (O4 t hi Hl) as (_ & _ & Hc). fold th in Hc.
+    injection H as <-. simpl. rewrite upd_same. split; [exact I|].
+    unfold lin_ok, th_ret. cbn [t_res t_prog t_nh t_h]. rewrite Hprog in *. cbn [tl]. simpl in LIN.
+    rewrite Hc, Hv, Nat.eqb_refl.
+    unfold live in Hl. apply andb_true_iff in Hl. destruct Hl as (Hl & _). apply andb_true_iff in Hl. destruct Hl as (Hl1 & Hl2).
+    rewrite Hl1 in LIN. unfold abs in LIN. destruct (h_pool (t_h th hi)); [|discriminate]. simpl in LIN.
+    eapply lin_push; [exact LIN|]. intros; reflexivity.
+Qed.
+
+Lemma run_lininv progs sched : LinInv progs (run_from (init progs) sched).
+Proof.
+  assert (G : forall sched st, Inv st -> EvalInv st -> LinInv progs st ->
+              Inv (run_from st sched) /\ EvalInv (run_from st sched) /\ LinInv progs (run_from st sched)).
+  { induction sched0 as [|it r IH]; intros st HI HE HL; [unfold run_from; simpl; split; [assumption|split; assumption]|].
+    unfold run_from in *. simpl. apply IH.
+    - now apply exec_inv.
+    - destruct it as [t ch|p i]; simpl; [|exact HE].
+      destruct (step t ch st) eqn:Hs; [eapply step_evalinv; eauto|exact HE].
+    - destruct it as [t ch|p i]; simpl.
+      + destruct (step t ch st) eqn:Hs; [eapply step_lininv; eauto|exact HL].
+      + intros t. destruct (HL t) as (A & B). split; [|exact B]. unfold pc_ok in *. simpl.
+        destruct (t_pc (s_thr st t)); auto. }
+  apply G.
+  - apply init_inv.
+  - intros t hi v1. unfold init, init_thread. simpl. discriminate.
+  - intros t. unfold init, init_thread. simpl. split; [exact I|]. unfold lin_ok, solo_run. simpl. reflexivity.
+Qed.
+
+(* In every interleaving, at every moment, the results a goroutine has
+   obtained so far followed by what the rest of its program yields alone are
+   the results of its whole program run alone; when its program is finished,
+   its results ARE those of the program run alone. *)
+Lemma linearizable progs sched t :
+  let th := s_thr (run_from (init progs) sched) t in
+  rev (t_res th) ++ solo (t_prog th) (t_nh th) (abs th) = solo_run (nth t progs []) /\
+  (t_prog th = [] -> rev (t_res th) = solo_run (nth t progs [])).
+Proof.
+  intros th. destruct (run_lininv progs sched t) as (_ & L). fold th in L. unfold lin_ok in L.
+  split; [exact L|]. intros E. rewrite E in L. simpl in L. now rewrite app_nil_r in L.
+Qed.
